@@ -136,5 +136,5 @@ def build(g):
                      ('can_castle_black_king_side', 'BlackKingSide', 'Black'), ('can_castle_black_queen_side', 'BlackQueenSide', 'Black')]:
         g.add(g.fn('move_generation', fn, cc_ann(T, c), props=('C01',)))
     g.add(g.fn('move_generation', 'can_castle', {'ret': 'res', 'requires': ['wf(board.board)', 'kings_ok(board)', 'rights_ok(board)'],
-                                                 'ensures': ['res == may_castle(board, *castling_type)'], 'expect': {'loops': []}}, props=P))
-    g.add(g.fn('move_generation', 'generate_castling_moves', GC, props=P))
+                                                 'ensures': ['res == may_castle(board, *castling_type)'], 'expect': {'loops': []}}, props=P, own=('C01',)))
+    g.add(g.fn('move_generation', 'generate_castling_moves', GC, props=P, own=()))
